@@ -100,6 +100,10 @@ func genAggQueries(r *rand.Rand, index string, withLatest, withMixedKey bool) []
 			if fn != "count" {
 				m = fn + "(" + fields[r.IntN(len(fields))] + ")"
 			}
+			if r.IntN(6) == 0 {
+				// multi-valued measures, over the numeric fields (f mixes whole and fractional numbers) and two keys
+				m = []string{"values", "list"}[r.IntN(2)] + "(" + []string{"n", "f", "sp", "g", "k"}[r.IntN(5)] + ")"
+			}
 			if !seen[m] {
 				seen[m] = true
 				a.Measures = append(a.Measures, m)
@@ -413,6 +417,12 @@ func checkAgg(prop string, a AggSpec, evs []*Event, q *qData, where string) []Vi
 				name = "cardinality(" + m[3:]
 			}
 			got, present := b.M[name]
+			if fn := fnName(m); fn == "values" || fn == "list" {
+				if v := checkMulti(fn, m[len(fn)+1:len(m)-1], ge, got, present); v != "" {
+					vs = append(vs, Violation{Sig: prop + ":stats:" + fn + "-wrong" + mk, Msg: fmt.Sprintf("%s: %s: group %q %s: %s", where, a.Text(), b.G, name, v)})
+				}
+				continue
+			}
 			want, lo, hi, kind := refMeasure(m, ge)
 			if !present {
 				if kind != "none" {
@@ -436,6 +446,94 @@ func checkAgg(prop string, a AggSpec, evs []*Event, q *qData, where string) []Vi
 		}
 	}
 	return vs
+}
+
+// checkMulti: values(x) is the set of distinct values of x among the events, list(x) their multiset (the
+// first 100 in an unstated order: only lists of at most 100 values are compared in full). Numbers are compared
+// numerically (2 and 2.0 are one value), everything else as text.
+func checkMulti(fn, field string, evs []*Event, got interface{}, present bool) string {
+	canon := func(s string) string {
+		if f, err := strconv.ParseFloat(s, 64); err == nil {
+			return strconv.FormatFloat(f, 'g', -1, 64)
+		}
+		return s
+	}
+	want := map[string]int{}
+	total := 0
+	for _, e := range evs {
+		if v, ok := e.Flat[field]; ok {
+			var t string
+			switch v.K {
+			case 's':
+				t = v.S
+			default:
+				if f, ok := valNum(v); ok {
+					t = strconv.FormatFloat(f, 'g', -1, 64)
+				} else {
+					continue
+				}
+			}
+			want[t]++
+			total++
+		}
+	}
+	var gl []string
+	switch g := got.(type) {
+	case nil:
+	case []interface{}:
+		for _, x := range g {
+			gl = append(gl, fmt.Sprint(x))
+		}
+	case string:
+		var arr []interface{}
+		if json.Unmarshal([]byte(g), &arr) == nil {
+			for _, x := range arr {
+				gl = append(gl, fmt.Sprint(x))
+			}
+		} else if g != "" {
+			gl = strings.Fields(strings.Trim(g, "[]"))
+		}
+	default:
+		gl = []string{fmt.Sprint(g)}
+	}
+	if !present && total > 0 {
+		return fmt.Sprintf("measure missing although %d events carry the field", total)
+	}
+	have := map[string]int{}
+	for _, x := range gl {
+		have[canon(x)]++
+	}
+	if fn == "values" {
+		for k := range want {
+			if have[k] == 0 {
+				return fmt.Sprintf("value %s of %d distinct values is missing; got %d values %v (%T)", k, len(want), len(gl), trimTo(fmt.Sprint(gl), 200), got)
+			}
+		}
+		for k, c := range have {
+			if want[k] == 0 {
+				return fmt.Sprintf("value %s does not occur in the matched events", k)
+			}
+			if c > 1 {
+				return fmt.Sprintf("value %s listed %d times", k, c)
+			}
+		}
+		return ""
+	}
+	for k, c := range have {
+		if c > want[k] {
+			return fmt.Sprintf("value %s listed %d times, occurs %d times", k, c, want[k])
+		}
+	}
+	if total <= 100 {
+		for k, c := range want {
+			if have[k] != c {
+				return fmt.Sprintf("value %s occurs %d times, listed %d times; %d values listed of %d (%T)", k, c, have[k], len(gl), total, got)
+			}
+		}
+	} else if len(gl) < 100 {
+		return fmt.Sprintf("%d values listed of %d", len(gl), total)
+	}
+	return ""
 }
 
 func fnName(m string) string {
